@@ -106,6 +106,7 @@ def finalize_models(prims):
     prims.register("pandas.Index", callee_pd_index)
     prims.register("pandas.RangeIndex", callee_range_index)
     prims.register("numpy.full_like", callee_full_like)
+    prims.register("numpy.atleast_1d", lambda ex, st, a, k, n: a[0])  # on the 1-D sequences of these contracts: the identity
 
 
 FIN_CALLEES = {"_squeeze_results": callee_squeeze, "reindex_": callee_reindex}
@@ -414,3 +415,61 @@ def all_reindex():
             for empty in (False, True):
                 out.append(reindex_contract(fk, at, empty))
     return out
+
+
+# ---------------------------------------------------------------------------------------------
+# reindex_intermediates(x, agg, unique_groups, array_type)   (C02.reindex, C05.reindex)
+# ---------------------------------------------------------------------------------------------
+
+
+def callee_reindex_generic(ex, st, args, kwargs, node):
+    """call-site use of the contract of reindex_ proved above; from_ / to may be arrays or pandas Indexes"""
+    arr = args[0]
+    frm, to = kwargs["from_"], kwargs["to"]
+    frm = frm.labels if isinstance(frm, IndexRec) else frm
+    to = to.labels if isinstance(to, IndexRec) else to
+    fill = kwargs.get("fill_value")
+    i, j = fresh("i"), fresh("j")
+    ex.oblige(st, z3.And(arr.length == frm.length, z3.ForAll([i, j], z3.Implies(z3.And(in_range(i, 0, frm.length), in_range(j, 0, frm.length), i != j), frm.at(i) != frm.at(j)))),
+              ex._name("pre.reindex_", node), "requires of reindex_: one value per label of from_, labels of from_ distinct")
+    res = sym_seq(f"reindexed_{fresh('r').decl().name()}", V.Val)
+    callee_reindex_generic.calls.append((arr, frm, to, fill, res))
+    for _, f in _reindex_spec(arr, frm, to, res, None if fill is None else V.as_val(fill)):
+        st.assume(f)
+    return res
+
+
+callee_reindex_generic.calls = []
+
+
+def reindex_intermediates_contract(n_inter=2):
+    def params(ex):
+        callee_reindex_generic.calls = []
+        x = {"groups": sym_seq("block_groups"), "intermediates": tuple(sym_seq(f"intermediate{k}", V.Val) for k in range(n_inter))}
+        agg = Record("Aggregation", fill_value={"intermediate": tuple(z3.Const(f"fill{k}", V.Val) for k in range(n_inter)), "final": z3.Const("final_fill", V.Val)})
+        return {"x": x, "agg": agg, "unique_groups": sym_seq("unique_groups"), "array_type": ModRef("flox.core.ReindexArrayType.AUTO")}
+
+    def requires(ex, env):
+        g = env["x"]["groups"]
+        i, j = fresh("i"), fresh("j")
+        return [g.length >= 0, env["unique_groups"].length >= 0] + [v.length == g.length for v in env["x"]["intermediates"]] + [
+            z3.ForAll([i, j], z3.Implies(z3.And(in_range(i, 0, g.length), in_range(j, 0, g.length), i != j), g.at(i) != g.at(j)))]  # the groups found in one block are distinct
+
+    def ensures(ex, env, res):
+        e = env["__entry__"]
+        x, U = e["x"], e["unique_groups"]
+        fills = e["agg"].fields["fill_value"]["intermediate"]
+        i = fresh("i")
+        cl = [("groups_are_the_common_groups", z3.And(res["groups"].length == U.length, forall(i, z3.Implies(in_range(i, 0, U.length), res["groups"].at(i) == U.at(i))))),
+              ("one_output_per_intermediate", z3.BoolVal(len(res["intermediates"]) == n_inter))]
+        for k in range(min(n_inter, len(res["intermediates"]))):
+            for name, f in _reindex_spec(x["intermediates"][k], x["groups"], U, res["intermediates"][k], fills[k]):
+                cl.append((f"intermediate{k}.{name}_with_its_own_fill", f))
+        return cl
+
+    return Contract(qualname="reindex_intermediates", file="flox/core.py", prefix="C02.reindex_intermediates", params=params, requires=requires, ensures=ensures, serves=("C02", "C05"),
+                    assumed=("np.broadcast_to / np.atleast_1d / ndarray.squeeze on a 1-D group axis are the identity", "pandas.Index constructor"))
+
+
+def reindex_intermediates_callees():
+    return {"reindex_": callee_reindex_generic}
